@@ -445,6 +445,9 @@ func (x *Exec) doReturn(cfg *Config, f *Frame, res []Val) (end bool) {
 				}
 			}
 		}
+		for _, r := range res {
+			x.escapeChecks(cfg, r, f.block.Instrs[f.idx].Pos(), 0)
+		}
 		x.exitChecks(cfg, f, res)
 		cfg.frames = nil
 		return true
@@ -805,4 +808,39 @@ func sigOfType(t types.Type) *types.Signature {
 	}
 	s, _ := t.Underlying().(*types.Signature)
 	return s
+}
+
+
+// escapeChecks: a function value handed to the caller (directly or as a field
+// of a returned struct value) that needs a lock to be held when it is called -
+// a bound method of a guarded object - will be called without it (C13).
+func (x *Exec) escapeChecks(cfg *Config, v Val, pos token.Pos, depth int) {
+	if depth > 3 {
+		return
+	}
+	var clo *CloV
+	switch vv := v.(type) {
+	case *CloV:
+		clo = vv
+	case TV:
+		if known, ok := cfg.st.clos[vv.T.S]; ok {
+			clo = known
+		}
+	case SV:
+		for _, fv := range vv.F {
+			x.escapeChecks(cfg, fv, pos, depth+1)
+		}
+		return
+	case TupV:
+		for _, e := range vv {
+			x.escapeChecks(cfg, e, pos, depth+1)
+		}
+		return
+	}
+	if clo == nil {
+		return
+	}
+	if what := x.P.boundNeedsLock(clo.Fn); what != "" {
+		x.oblige(cfg, "guarded-escape", "returns the method value "+what+", which must be called with its lock held", False, []string{"C13"}, pos)
+	}
 }
